@@ -23,6 +23,8 @@ Abstract syntax and concretisation as in harness/C10_manifest/vc10_common_test.g
 import hashlib
 import importlib.util
 import json
+import os
+import traceback
 import random
 import re
 import sys
@@ -141,7 +143,7 @@ def run_scenario(R, N, scn, rnd):
             for lr in R.locators_and_ranges(blocks, t["pos"], t["len"]):     # arvfile._add_segment
                 last = segs[-1] if segs else R.Range(0, 0, 0, 0)
                 segs.append(R.Range(lr.locator, last.range_start + last.range_size, lr.segment_size, lr.segment_offset))
-    evs.append({"ev": "load", "kind": "ok", "paths": [to_bytes(p) for p in sorted(order)]})
+    evs.append({"ev": "load", "kind": "ok", "paths": [to_bytes(p) for p in sorted(order)], "reads": []})
     for p in sorted(order):
         segs = files[p]
         obs = [{"via": "map", "start": 0, "n": -1,
@@ -196,8 +198,15 @@ def main():
             reset = {"ev": "reset", "scn": scn["id"], "codec": "py", "streams": scn["streams"], "mut": "none"}
             try:
                 evs = run_scenario(R, N, scn, random.Random(scn.get("rseed", 0)))
-            except Exception as e:      # an exception of the codec is the Python form of a panic
-                evs = [{"ev": "load", "kind": "panic", "detail": "%s: %s" % (type(e).__name__, e), "paths": []}]
+            except Exception as e:
+                # an exception is the Python form of a panic - but only if it was RAISED INSIDE the SDK modules under
+                # test (innermost traceback frame in _ranges.py / _normalize_stream.py); anything raised by the glue
+                # of this driver is an infrastructure failure (audit C10-6)
+                tb = traceback.extract_tb(e.__traceback__)
+                inner = os.path.abspath(tb[-1].filename) if tb else ""
+                if not inner.startswith(os.path.abspath(sdkdir) + os.sep):
+                    raise
+                evs = [{"ev": "load", "kind": "panic", "detail": "%s: %s" % (type(e).__name__, e), "paths": [], "reads": []}]
             for ev in [reset] + evs:
                 fout.write(json.dumps(ev, separators=(",", ":")) + "\n")
             n += 1
